@@ -96,6 +96,20 @@ func OrderedMap.Delete
   ensures forall k K :: k != key ==> (has(o.dictionary.m, k) <==> old(has(o.dictionary.m, k))) && (has(o.dictionary.m, k) ==> o.dictionary.m[k] == old(o.dictionary.m[k]))
   ensures unlocked(o.mutex)
 
+-- Delete with other goroutines around (second proof variant, no `opt sequential`: the map may change whenever the lock
+-- is not held): the element is taken out of the dictionary and unlinked only in a write section in which the key has just
+-- been found present - what a look under the read lock saw says nothing once that lock has been released (two concurrent
+-- Deletes of one key would both report true and unlink the element twice)
+func OrderedMap.Delete#atomic
+  opt only-ghost-asserts          -- (the representation invariant is the sequential variant's business)
+  requires o != nil && unlocked(o.mutex)
+  modifies everything
+  ghost local present Bool       -- the key was found in the dictionary since the write lock was taken (ghost)
+  ghost after acquire: present = false
+  ghost after call ShrinkingMap.Get: present = held(o.mutex) && r1
+  ghost before call ShrinkingMap.Delete: assert held(o.mutex) && present
+  ensures unlocked(o.mutex)
+
 func OrderedMap.Clear
   opt sequential
   requires unlocked(o.mutex)
